@@ -37,6 +37,7 @@ type c14sEnv struct {
 	overlap  bool
 	reserved bool
 	closed   bool // lease-closed was delivered
+	failing  bool // native: deploys fail (the schedule lets a manager finish without a lease-closed)
 	events   chan pubsub.Event
 	live     []*deploymentManager // engine model: managers that have not finished
 	torn     map[*deploymentManager]bool
@@ -71,6 +72,9 @@ func (c c14sClient) Deploy(context.Context, mtypes.LeaseID, *manifest.Group) err
 	c.enter()
 	c.e.log("deploy-start")
 	c.leave()
+	if c.e.failing {
+		return errReservationNotFound // any error: the manager gives up, tears down and finishes
+	}
 	return nil
 }
 func (c c14sClient) TeardownLease(context.Context, mtypes.LeaseID) error {
@@ -111,6 +115,9 @@ func (e *c14sEnv) event(kind int) pubsub.Event {
 	case 0:
 		return e.manifestEvent()
 	case 1:
+		e.mu.Lock()
+		e.closed = true
+		e.mu.Unlock()
 		return mtypes.EventLeaseClosed{ID: e.lid}
 	}
 	return mtypes.EventBidClosed{}
@@ -131,6 +138,23 @@ func (e *c14sEnv) oracle(s *service) {
 	}
 	verif_Assert(!e.overlap, "C14 never two cluster operations in flight for one lease")
 	verif_Assert(teardowns <= 1, "C14 never two cluster operations in flight for one lease") // one manager, hence one teardown, per lease
+	// "... and the lease's reservation is then released": once the lease is closed and no manager
+	// is left (it finished, or there never was one), the inventory holds nothing for the order; a
+	// finished manager is no longer registered and its reservation is gone.
+	reserved, managers, finished := e.reserved, len(s.managers), false
+	if !verif_Symbolic() {
+		_, err := s.inventory.lookup(e.lid.OrderID(), &e.group)
+		reserved = err == nil
+	} else {
+		verif_Assert(managers == len(e.live), "C14 the service tracks exactly the managers that have not finished")
+		for _, op := range e.oplog {
+			finished = finished || op == "manager-done"
+		}
+	}
+	if (e.closed || finished) && managers == 0 {
+		verif_Reach("released")
+		verif_Assert(!reserved, "C14 reservation released once the lease is closed and its manager has finished")
+	}
 }
 
 func c14service(steps int) {
@@ -219,6 +243,12 @@ func c14service(steps int) {
 	go s.lc.WatchContext(ctx)
 	go s.run(nil)
 	time.Sleep(150 * time.Millisecond)
+	closing := false
+	for _, st := range verif_Schedule() {
+		kind, _, val := verif_Step(st)
+		closing = closing || kind == "event" && val == 1
+		e.failing = e.failing || kind == "manager-done" && !closing
+	}
 	for _, st := range verif_Schedule() {
 		kind, _, val := verif_Step(st)
 		switch kind {
